@@ -263,6 +263,12 @@ func isNilSignature(sig QuorumSignature) bool {
 	return v.Kind() == reflect.Pointer && v.IsNil()
 }
 
+// HasSignature returns true if the quorum certificate carries a signature;
+// a nil signature and a nil pointer both count as no signature.
+func (qc QuorumCert) HasSignature() bool {
+	return !isNilSignature(qc.signature)
+}
+
 // Signature returns the threshold signature.
 func (qc QuorumCert) Signature() QuorumSignature {
 	return qc.signature
